@@ -434,7 +434,7 @@ def firstReaction(x, x_lims, t, state_change_mat, transition_func, seed=None):
     # find our jump times
     jump_times = _newJumpTimes(rates, seed=seed)
     if np.all(jump_times == np.inf):
-        return x, t, False
+        return 0, 0, 0, 0, False
     # first jump
     min_index = np.argmin(jump_times)
     new_x = _updateStateWithJump(x, min_index, changes)
